@@ -1837,7 +1837,15 @@ class Executor:
             if is_z3(k):
                 ks = z3.simplify(k)
                 if not z3.is_int_value(ks):
-                    raise Unsupported("symbolic key store in concrete dict")
+                    # symbolic integer key in a dict with a concrete spine: compared with the existing keys one by one (each comparison is a
+                    # path decision), overwriting the first equal key or appending a new entry
+                    for kk, _ in h.items:
+                        if is_z3(lift(kk)) or isinstance(kk, int):
+                            if self.decide(ks == lift(kk)):
+                                self.store(base, CDict(tuple((a, val if a is kk else b) for a, b in h.items)), node, "[k] =")
+                                return
+                    self.store(base, CDict(h.items + ((ks, val),)), node, "[k] =")
+                    return
                 k = ks.as_long()
             self.store(base, h.set(k, val), node, "[k] =")
             return
